@@ -391,6 +391,10 @@ func (n *PathSelectorNode) Field(fieldName string) (PathNode, bool, error) {
 }
 
 func (n *PathSelectorNode) Get(src, dst reflect.Value) error {
+	if !src.IsValid() {
+		// a nil interface or nil pointer was reached: there is nothing to select from
+		return fmt.Errorf("failed to get value from nil")
+	}
 	switch src.Type().Kind() {
 	case reflect.Map:
 		iter := src.MapRange()
@@ -467,6 +471,10 @@ func (n *PathIndexNode) Field(fieldName string) (PathNode, bool, error) {
 }
 
 func (n *PathIndexNode) Get(src, dst reflect.Value) error {
+	if !src.IsValid() {
+		// a nil interface or nil pointer was reached: there is nothing to select from
+		return fmt.Errorf("failed to get value from nil")
+	}
 	switch src.Type().Kind() {
 	case reflect.Array, reflect.Slice:
 		if src.Len() > n.selector {
@@ -510,6 +518,10 @@ func (n *PathIndexAllNode) Field(fieldName string) (PathNode, bool, error) {
 }
 
 func (n *PathIndexAllNode) Get(src, dst reflect.Value) error {
+	if !src.IsValid() {
+		// a nil interface or nil pointer was reached: there is nothing to select from
+		return fmt.Errorf("failed to get value from nil")
+	}
 	switch src.Type().Kind() {
 	case reflect.Array, reflect.Slice:
 		var arr []interface{}
@@ -586,6 +598,10 @@ func valueToSliceValue(v interface{}) []interface{} {
 }
 
 func (n *PathRecursiveNode) Get(src, dst reflect.Value) error {
+	if !src.IsValid() {
+		// a nil interface or nil pointer was reached: there is nothing to select from
+		return fmt.Errorf("failed to get value from nil")
+	}
 	if n.child == nil {
 		return fmt.Errorf("failed to get by recursive path ..%s", n.selector)
 	}
